@@ -190,3 +190,36 @@ func init() {
 		Rule: "same scenario space; SendError (reason, code, temporary, enhanced status code, recipients, joined entries) of every message compared with the replies the server actually sent and with the model; distinct by scenario",
 		Run: func(c *Ctx) { smtpSuite(c, oracleSendError, 1500, 80000) }})
 }
+
+func init() {
+	register(Suite{Name: "c19-dialsend", Property: "C19",
+		Rule: "DialAndSend of generated batches with 0..3 faults (4yz, 5yz, garbage, disconnect) at random positions of the whole dialogue incl. QUIT; the tracking connection must be closed when the call returns (error or success), success must have sent QUIT; traces compared with the model; distinct by scenario",
+		Run: func(c *Ctx) {
+			smtpSuite(c, func(c *Ctx, sc *SmtpScenario, run *SmtpRun) { oracleClosed(c, sc, run, true) }, 1200, 60000)
+		}})
+	register(Suite{Name: "c17-send-stall", Property: "C17",
+		Rule: "DialAndSend of generated batches; the server falls silent at one position of the dialogue (every position of each generated scenario, exhaustive per scenario: greeting, EHLO, NOOP, MAIL, each RCPT, DATA, end-of-data, RSET, QUIT); virtual time; no wait without an armed deadline; the call must return an error; traces compared with the model",
+		Run: func(c *Ctx) {
+			n := c.N(40, 1500)
+			for i := 0; i < n; i++ {
+				sc := genScenario(c.Rng, 2, 2)
+				for mi := range sc.Msgs {
+					sc.Msgs[mi].RenderFail = false
+				}
+				npos, verbs := positionsOf(sc)
+				for pos := 0; pos < npos; pos++ {
+					sc2 := *sc
+					sc2.Script = map[int]SrvAction{pos: {Kind: "stall"}}
+					run := runAndCompare(c, &sc2, "stall@"+verbs[pos])
+					if run == nil || run.Panic != nil {
+						continue
+					}
+					oracleStalls(c, &sc2, run)
+					c.rep.OracleChecked++
+					if run.Err == nil && verbs[pos] != "QUIT" {
+						c.Violate("c17-no-error", "the server stalled at "+verbs[pos]+" but DialAndSend returned nil", &sc2)
+					}
+				}
+			}
+		}})
+}
